@@ -64,7 +64,8 @@ TM_GATES = {
 ML_GATES = {
     # MSM.config (what save() pickles, what load() feeds to the constructor) has no max_n_states: the loaded estimator
     # reports max_n_states=None and refits to a different shape.
-    "PersistMaxN": False,
+    # (repaired in /repo 30dd8d6: the class is part of the scope)
+    "PersistMaxN": True,
     # repr / str / == / result_ of an estimator that was never fit: result_ reads self.tcounts_ -> AttributeError
     # (the code plainly intends `None`); `fitted == unfitted` raises as well.
     "UnfitObservers": False,
@@ -72,11 +73,13 @@ ML_GATES = {
     # calls a str -> TypeError, while a fresh MSM(method="transpose") works.
     "MethodByName": False,
     # save(path, force=True) onto an existing model directory: os.remove(<directory>) -> IsADirectoryError.
-    "ForceOverwrite": False,
+    # (repaired in /repo 2e55ab0)
+    "ForceOverwrite": True,
     # m == 3 / "ab" / None: other.config -> AttributeError (definition: False).
     "EqForeign": False,
     # one-state model: np.loadtxt returns a 0-d array, loaded.eq_probs_.shape == () instead of (1,).
-    "SingleStateIO": False,
+    # (repaired in /repo 8ae3c95)
+    "SingleStateIO": True,
     # a == b for two FITTED estimators with equal lag/method/trim/sliding_window and a different number of states
     # (max_n_states differs): np.all(self.eq_probs_ == other.eq_probs_) on shapes (3,) vs (4,) -> ValueError.
     "EqShapeClash": False,
@@ -336,7 +339,8 @@ def _ml_observe_obj(m, eo):
         bad.append(("params", {"got": got, "expected": eo["params"]}))
     conf = dict(m.config)
     gotc = {"lag": conf.get("lag_time"), "method": _mname(conf.get("method")), "trim": conf.get("trim"),
-            "sliding": conf.get("sliding_window")}
+            "sliding": conf.get("sliding_window"),
+            "maxn": 0 if conf.get("max_n_states") is None else conf.get("max_n_states")}
     if gotc != eo["config"]:
         bad.append(("config", {"got": gotc, "expected": eo["config"]}))
     fitted = all(hasattr(m, a) for a in ("tcounts_", "tprobs_", "eq_probs_", "mapping_"))
@@ -531,16 +535,16 @@ def run_part(ctx):
     # ---- TrimMapping -------------------------------------------------------------------------------------------
     tm = lambda **kw: dict(dict(NOrig=3, NTrim=2, Slots=2, Files=1, MaxPairs=2, Depth=3, Emit=False, Variants=False, OpBudget=0),
                            **tg, **kw)
-    jobs.append(dict(module="TrimMapping", cwd=d, workers=2, coverage=True, timeout=900, java_opts=("-Xmx3g",) + _JVM,
+    jobs.append(dict(module="TrimMapping", cwd=d, workers=2, coverage=True, timeout=900, java_opts=("-Xmx2g",) + _JVM,
                      cfg=_cfg(d, "tm_mc.cfg", tm(Depth=3 if quick else 4), TM_INVS, TM_PROPS, "HistView"),
                      label="TrimMapping exhaustive (VIEW HistView) 3 original x 2 trimmed ids, 2 names, 1 file, depth %d"
                            % (3 if quick else 4)))
-    jobs.append(dict(module="TrimMapping", cwd=d, workers=1, timeout=900, java_opts=("-Xmx3g",) + _JVM,
+    jobs.append(dict(module="TrimMapping", cwd=d, workers=1, timeout=900, java_opts=("-Xmx2g",) + _JVM,
                      cfg=_cfg(d, "tm_op.cfg", tm(NOrig=2 if quick else 3, Emit=True, OpBudget=2 if quick else 0), ["EmitInv"], [],
                               "OpView"),
                      label="TrimMapping every operation in every state of depth <= 2 (VIEW OpView), 2 names%s"
                            % (", no operation kind more than twice" if quick else "")))
-    jobs.append(dict(module="TrimMapping", cwd=d, workers=1, timeout=900, java_opts=("-Xmx3g",) + _JVM,
+    jobs.append(dict(module="TrimMapping", cwd=d, workers=1, timeout=900, java_opts=("-Xmx2g",) + _JVM,
                      cfg=_cfg(d, "tm_tr.cfg", tm(NOrig=2, Slots=1 if quick else 2, Emit=True), ["EmitInv"], [], "TransView"),
                      label="TrimMapping every distinct transition (state before, operation, state after) of depth <= 3, "
                            "%d name(s), 1 file (VIEW TransView)" % (1 if quick else 2)))
@@ -558,16 +562,16 @@ def run_part(ctx):
     two = "{%d}" % (1 + (ctx.seed + 1) % 3)
     ml = lambda **kw: dict(dict(S=3, MaxT=1, MaxLen=3, MaxLag=2, Data="{1, 2, 3}", AnyNew=False, Variants=False, Depth=4,
                                 Emit=False, OpBudget=0), **mg, **kw)
-    jobs.append(dict(module="MSMLife", cwd=d, workers=2, coverage=True, timeout=1500, java_opts=("-Xmx3g",) + _JVM,
+    jobs.append(dict(module="MSMLife", cwd=d, workers=2, coverage=True, timeout=1500, java_opts=("-Xmx2g",) + _JVM,
                      cfg=_cfg(d, "ml_mc.cfg", ml(Depth=4 if quick else 5, Data=two if quick else "{1, 2, 3}"), ML_INVS, ML_PROPS,
                               "HistView"),
                      label="MSMLife exhaustive (VIEW HistView) catalogue assignment sets %s, depth %d"
                            % (two if quick else "{1, 2, 3}", 4 if quick else 5)))
-    jobs.append(dict(module="MSMLife", cwd=d, workers=1, timeout=1500, java_opts=("-Xmx3g",) + _JVM,
+    jobs.append(dict(module="MSMLife", cwd=d, workers=1, timeout=1500, java_opts=("-Xmx2g",) + _JVM,
                      cfg=_cfg(d, "ml_op.cfg", ml(Depth=3, Emit=True), ["EmitInv"], [], "TransView"),
                      label="MSMLife every distinct transition (state before, operation, state after) of depth <= 3 "
                            "(VIEW TransView)"))
-    jobs.append(dict(module="MSMLife", cwd=d, workers=2, coverage=True, timeout=1500, java_opts=("-Xmx3g",) + _JVM,
+    jobs.append(dict(module="MSMLife", cwd=d, workers=2, coverage=True, timeout=1500, java_opts=("-Xmx2g",) + _JVM,
                      cfg=_cfg(d, "ml_all.cfg", ml(S=2, MaxT=1 if quick else 2, MaxLen=3, Data="{}", AnyNew=True, Depth=2 if quick else 3),
                               ML_INVS, ML_PROPS, "HistView"),
                      label="MSMLife exhaustive over EVERY assignment set of the MSMObj scope S=2, any constructor configuration"))
@@ -577,7 +581,7 @@ def run_part(ctx):
                      simulate="num=%d" % nm, extra=["-depth", "10"], seed=ctx.seed * 100 + 43,
                      label="MSMLife %d simulated life cycles of length 9 (any constructor configuration)" % nm))
     dc = 4 if quick else 5
-    jobs.append(dict(module="MSMLife", cwd=d, workers=1, timeout=1500, java_opts=("-Xmx3g",) + _JVM,
+    jobs.append(dict(module="MSMLife", cwd=d, workers=1, timeout=1500, java_opts=("-Xmx2g",) + _JVM,
                      cfg=_cfg(d, "ml_cyc.cfg", ml(Data="{%d}" % (1 + ctx.seed % 3), Depth=dc, Emit=True, OpBudget=1),
                               ["EmitFull"], [], "TransView"),
                      label="MSMLife every life cycle of %d different operations on catalogue set %d (VIEW TransView)"
